@@ -23,7 +23,7 @@ SPEC = {
              "operator yields at least one element; distinct = distinct case description."),
     "shards": {"quick": 16, "thorough": 16},
     "min_counts": {"quick": {"evaluations": 2000, "oracle_evals": 20000, "yields_checked": 5000,
-                             "fresh_defaults_checked": 1000, "identity_checked": 5000},
+                             "fresh_defaults_checked": 1000, "identity_checked": 5000, "operands_with_saved_position": 300},
                    "thorough": {"evaluations": 20000, "oracle_evals": 200000}},
     "assumptions": [
         "ordered/unique fibers only; integer or tuple coordinates",
@@ -104,9 +104,11 @@ def _random_case(rng):
     if r < 0.80:
         k = rng.randint(2, 4)
         ext = rng.randint(1, 8)
-        return {"kind": "nary", "op": rng.choice(["intersection", "union", "leader-follower"]),
+        return {"kind": "nary", "op": rng.choice(["intersection", "union", "leader-follower", "leader-follower"]),
                 "specs": [gen.rand_leaf_spec(rng, ext, rng.choice([0.3, 0.6, 0.9]), 0.15, default) for _ in range(k)],
-                "default": default, "setting": rng.choice(["free", "tensor"])}
+                "default": default, "setting": rng.choice(["free", "tensor"]),
+                # operands that were used before: a saved search position left by an earlier operation
+                "saved": [rng.randint(0, ext) for _ in range(k)] if rng.random() < 0.5 else None}
     # tuple coordinates
     ka, kb = rng.choice([(2, 2), (1, 2), (2, 1), (2, 3), (3, 2), (0, 2), (2, 0), (3, 3)])
     return {"kind": "tuple", "ka": ka, "kb": kb, "a": _tuple_spec(rng, ka, default), "b": _tuple_spec(rng, kb, default),
@@ -328,6 +330,11 @@ def _run_nary(case, mon):
         owners = []
         fibers = [gen.fiber_from_spec(s, d) for s in case["specs"]]
     watched = owners or fibers
+    if case.get("saved"):
+        for f, sp in zip(fibers, case["saved"]):
+            if f.coords:
+                f.setSavedPos(min(sp, len(f.coords) - 1))
+                mon.count("operands_with_saved_position")
     before = [snap(x) for x in watched]
     ids = {}
     for x in watched:
